@@ -677,6 +677,54 @@ pub fn run(c: &Case) -> Outcome {
             }
         }
     }
+    // the passwords removed in place (primary and every locked subkey): still one certificate,
+    // equal to itself after export and re-import, usable without a password
+    if s.lock != 0 || s.subs.iter().any(|x| x.lock != 0) {
+        let mut un = key.clone();
+        let mut ok = true;
+        if s.lock != 0 {
+            if let Err(e) = un.primary_key.remove_password(&ppw) {
+                fail(&mut o, "remove_password-fails-on-primary", e.to_string());
+                ok = false;
+            }
+        }
+        for (sub, sk) in s.subs.iter().zip(un.secret_subkeys.iter_mut()) {
+            if sub.lock != 0 {
+                if let Err(e) = sk.key.remove_password(&sub_pw(s, sub)) {
+                    fail(&mut o, "remove_password-fails-on-subkey", format!("{:?} lock {}: {e}", sub.alg, sub.lock));
+                    ok = false;
+                }
+            }
+        }
+        if ok {
+            match un.to_bytes() {
+                Ok(bytes) => {
+                    if un.write_len() != bytes.len() {
+                        fail(&mut o, "after-remove_password:write_len-differs", format!("{} vs {}", un.write_len(), bytes.len()));
+                    }
+                    match SignedSecretKey::from_bytes(&bytes[..]) {
+                        Ok(k2) => {
+                            if k2 != un {
+                                let (a, b) = (format!("{un:#?}"), format!("{k2:#?}"));
+                                let d = a.lines().zip(b.lines()).find(|(x, y)| x != y).map(|(x, y)| format!("in memory `{}` vs re-imported `{}`", x.trim(), y.trim())).unwrap_or_default();
+                                fail(&mut o, "after-remove_password:binary-reimport-differs", d);
+                            }
+                        }
+                        Err(e) => fail(&mut o, "after-remove_password:binary-reimport-fails", e.to_string()),
+                    }
+                }
+                Err(e) => fail(&mut o, "after-remove_password:to_bytes-fails", e.to_string()),
+            }
+            if let Err(e) = un.verify_bindings() {
+                fail(&mut o, "after-remove_password:bindings-do-not-verify", e.to_string());
+            }
+            if !un.primary_key.unlock(&Password::empty(), |_, _| Ok(())).map(|r| r.is_ok()).unwrap_or(false)
+                || un.secret_subkeys.iter().any(|sk| !sk.key.unlock(&Password::empty(), |_, _| Ok(())).map(|r| r.is_ok()).unwrap_or(false))
+            {
+                fail(&mut o, "after-remove_password:still-needs-a-password", String::new());
+            }
+        }
+    }
     o
 }
 
